@@ -78,7 +78,7 @@ fn kind_of_choice<'a>(k: u8, variant: u8, seq3: &'a [J; 3]) -> (ErrorKind<'a, J>
         0 => {
             let actual: J = match variant { 0 => json!("x y"), 1 => json!(31), 2 => json!([1, "z"]), 3 => json!({"q": null}), 4 => json!(-4), 5 => json!(true), 6 => json!(2.5), 7 => J::Null,
                 // strings that JSON text must escape: quotes / backslash, control characters, DEL, combining / zero-width / astral characters
-                12 => json!(u64::MAX), 13 => json!(9223372036854775808u64), 14 => json!(i64::MIN), 15 => json!(false), 8 => json!("q\"b\\s"), 9 => json!("\u{0}\u{7}\u{8}\u{c}\u{1f}"), 10 => json!("a\u{7f}e\u{301}\u{200b}\u{1f980}"), _ => json!("l\n\r\t") };
+                16 => json!(3.0), 17 => json!(-2.0), 18 => json!(1e16), 12 => json!(u64::MAX), 13 => json!(9223372036854775808u64), 14 => json!(i64::MIN), 15 => json!(false), 8 => json!("q\"b\\s"), 9 => json!("\u{0}\u{7}\u{8}\u{c}\u{1f}"), 10 => json!("a\u{7f}e\u{301}\u{200b}\u{1f980}"), _ => json!("l\n\r\t") };
             let text = if actual.is_null() { "null".to_string() } else { format!("`{}`", serde_json::to_string(&actual).unwrap()) };
             (ErrorKind::IncorrectValueKind { actual: actual.into_value(), accepted: &KINDS }, vec![text, value_kinds_description_json(&KINDS)], vec![])
         }
@@ -107,7 +107,7 @@ pub fn msg_paths() {
     let mut steps = Vec::new();
     for _ in 0..depth { steps.push(POOL[nd::below(9) as usize].clone()); }
     let k = nd::below(6);
-    let variant = if k == 0 { nd::below(16) } else if k == 2 || k == 3 { nd::below(10) } else { 0 };
+    let variant = if k == 0 { nd::below(19) } else if k == 2 || k == 3 { nd::below(10) } else { 0 };
     let seq3 = [json!(1), json!("w"), J::Null];
     let (rj, rq) = (ref_json(&steps), ref_qp(&steps));
     let root_json = msg_of(JsonError::error::<J>(None, kind_of_choice(k, variant, &seq3).0, ValuePointerRef::Origin)).0;
